@@ -3,12 +3,13 @@ C05 — Memory and DB metadata stores expose the same filesystem for the same bl
 
 Only property theorems and their non-vacuity examples live here.  The two interpreters
 (`memTree`, `dbTree`), the canonical `view` and the bolt model are in `SV.Model.Toc`; the decidable
-fragment `SpecConforming` and the simulation proof are in `SV.Lemmas.TocAgree`.
+fragments `SpecConformingR` ⊇ `SpecConforming` are in the model file, the simulation proof is in
+`SV.Lemmas.TocSim` (namespace `SV.Toc.R`).
 -/
-import SV.Lemmas.TocAgree
+import SV.Lemmas.TocSim
 
 namespace SV.Props.C05
-open SV.Toc
+open SV.Toc SV.Toc.R
 
 /-! ### Names -/
 
@@ -48,51 +49,61 @@ theorem chunk_lookup_rows_agree (size : Int) (m d : List Chunk) (hc : Contig 0 s
      | _ => ChunkTab.table m).lookup x = (ChunkTab.table (readChunks d size)).lookup x :=
   lookup_rows_agree size m d hc he x hx
 
-/-! ### The two stores on SpecConforming TOCs -/
+/-! ### The two stores on SpecConformingR TOCs -/
 
-/-- **Both stores accept every SpecConforming TOC and expose the same filesystem**: the canonical
+/-- **Both stores accept every SpecConformingR TOC and expose the same filesystem**: the canonical
 views (sorted names, FUSE-normalised attributes incl. link counts and xattrs, node identity of
 hardlinked names, `GetOffset`, `OpenFile` outcome, chunk triples at every probe offset) of
 `memTree es` and `dbTree es` are equal.
 
-`SpecConforming` (decidable, `SV.Lemmas.TocAgree`) allows implicit parent directories at any depth,
-hardlinks to earlier entries including hardlinks to hardlinks by any spelling, entries without
-per-file digest, `./`, `../`, `//` spellings, arbitrary (also empty-valued) xattrs, any modes and
-owners, several files in one stream (offsets are unconstrained), chunked files whose rows tile the
-file.  It excludes what the CURRENT stores are observed to disagree on (candidate findings, replayed
-on the implementation every run): an entry for the root directory itself, a directory entry placed
-after something below it, a name used twice, data entries that carry a digest but no chunkDigest,
-offsets on entries without data.  Repeated identical directory entries are not covered by this
-theorem (see `StoresAgreeFull`), hence `_partial`. -/
-theorem stores_agree_partial (es : List Entry) (sc : SpecConforming es) :
+`SpecConformingR` (decidable, `SV.Model.Toc`) allows implicit parent directories at any depth,
+directories announced again — any number of times, anywhere after their first entry — by entries
+with the same attributes (the memory store keeps the last such entry as the node, the db store the
+node of the first: the proof relates the two trees up to that renaming), hardlinks to earlier
+entries including hardlinks to hardlinks by any spelling, entries without per-file digest, `./`,
+`../`, `//` spellings, arbitrary (also empty-valued) xattrs, any modes and owners, several files
+in one stream (offsets are unconstrained), chunked files whose rows tile the file.  It excludes
+what the CURRENT stores are observed to disagree on (known findings, replayed on the
+implementation every run): an entry for the root directory itself, a directory whose first entry
+comes after something below it, a directory announced again with other attributes, any other name
+used twice, data entries that carry a digest but no chunkDigest, offsets on entries without
+data. -/
+theorem stores_agree (es : List Entry) (sc : SpecConformingR es) :
     ∃ tm td, memTree es = .accept tm ∧ dbTree es = .accept td ∧ view tm = view td :=
   views_agree sc
 
 /-- the same, on `viewOf`: equal views, and neither store rejects -/
-theorem stores_agree_viewOf_partial (es : List Entry) (sc : SpecConforming es) :
+theorem stores_agree_viewOf (es : List Entry) (sc : SpecConformingR es) :
     viewOf (memTree es) = viewOf (dbTree es) ∧ (viewOf (memTree es)).isSome := by
   obtain ⟨tm, td, h1, h2, h3⟩ := views_agree sc
   rw [h1, h2]; simp [viewOf, h3]
 
-/-- **Both `ChunkEntryForOffset`s return the same triple for every file offset of every node**:
-the nodes both stores list are the same (same paths, same identities), and for each of them the
-memory store's lookup (binary search over `r.chunks[name]`, or the single-entry shortcut) and the db
-store's lookup (binary search over the table `readChunks` rebuilds) agree at every offset `≥ 0`. -/
-theorem chunk_lookup_agree (es : List Entry) (sc : SpecConforming es) :
-    ∃ tm td, memTree es = .accept tm ∧ dbTree es = .accept td ∧
-      listing tm maxDepth [] tm.root [] = listing td maxDepth [] td.root [] ∧
-      ∀ pk, pk ∈ (listing tm maxDepth [] tm.root []).1 → ∀ x : Int, 0 ≤ x →
-        (tm.node pk.2).chunks.lookup x = (td.node pk.2).chunks.lookup x := by
-  obtain ⟨smF, sdF, h1, h2, ag⟩ := trees_agree sc
-  have hl := listing_agree ag maxDepth [] Key.root [] ag.rootC
-  exact ⟨_, _, h1, h2, hl.1, fun pk hpk x hx => (ag.node pk.2 (hl.2 pk hpk)).lookup x hx⟩
+/-- the fragment without repeated names (on which C02's bridge to the tar view is stated) is
+included -/
+theorem spec_conforming_included (es : List Entry) (sc : SpecConforming es) : SpecConformingR es :=
+  spec_of_nodup sc
 
-/-- The statement DESIGN.md asks for, with repeated directory entries: every directory may be
-announced more than once by identical entries.  Open: the proof above keys nodes by the entry
-that created them, and the memory store keeps the LAST of several equal directory entries while
-the db store keeps the FIRST, so the simulation needs a renaming of keys that is not done yet.
-The implementation and both interpreters are compared on such TOCs every run (stream "conf",
-feature `dir-repeated`) without a single disagreement so far. -/
+/-- **Both `ChunkEntryForOffset`s return the same triple for every file offset of every node**:
+the nodes both stores list are the same (same paths in the same order, the db store's node ids
+being a renaming `g` of the memory store's), and for each of them the memory store's lookup
+(binary search over `r.chunks[name]`, or the single-entry shortcut) and the db store's lookup
+(binary search over the table `readChunks` rebuilds) agree at every offset `≥ 0`. -/
+theorem chunk_lookup_agree (es : List Entry) (sc : SpecConformingR es) :
+    ∃ (tm td : Tree) (g : Key → Key), memTree es = .accept tm ∧ dbTree es = .accept td ∧
+      (listing td maxDepth [] td.root []).1 =
+        (listing tm maxDepth [] tm.root []).1.map (fun pk => (pk.1, g pk.2)) ∧
+      ∀ pk, pk ∈ (listing tm maxDepth [] tm.root []).1 → ∀ x : Int, 0 ≤ x →
+        (tm.node pk.2).chunks.lookup x = (td.node (g pk.2)).chunks.lookup x := by
+  obtain ⟨smF, sdF, h1, h2, ag⟩ := trees_agree sc
+  have hl := listing_agree ag maxDepth [] Key.root [] ag.rootC (by intro s h; cases h)
+  refine ⟨_, _, canon (pass1 es), h1, h2, ?_, fun pk hpk x hx => (ag.node pk.2 (hl.2.1 pk hpk)).lookup x hx⟩
+  have := congrArg Prod.fst hl.1
+  exact this
+
+/-- The statement DESIGN.md asks for, in its original wording: `es` is a TOC without repeated
+names followed by repetitions of some of its directory entries (same fields, any spelling of the
+name).  Proved below (`stores_agree_full`) as an instance of `stores_agree`, whose fragment also
+lets the repetitions stand anywhere after the first entry. -/
 def StoresAgreeFull : Prop :=
   ∀ es : List Entry,
     (∃ es' : List Entry, SpecConforming es' ∧
@@ -102,6 +113,13 @@ def StoresAgreeFull : Prop :=
           { d.2 with name := "" } = { es'[d.1] with name := "" }) ∧
         es = es' ++ dup.map Prod.snd) →
     viewOf (memTree es) = viewOf (dbTree es)
+
+/-- **`StoresAgreeFull` holds**: a TOC without repeated names followed by repetitions of some of
+its directory entries lies in `SpecConformingR`, so `stores_agree` applies. -/
+theorem stores_agree_full : StoresAgreeFull := by
+  rintro es ⟨es', sc, dup, hdup, e⟩
+  subst e
+  exact (stores_agree_viewOf _ (spec_of_dups sc dup hdup)).1
 
 /-! ### Layers in one bolt file -/
 
@@ -157,6 +175,23 @@ def exampleTOC : List Entry := [
 
 set_option maxRecDepth 100000 in
 example : SpecConforming exampleTOC := by decide
+
+/-- the same with the directory `a/x` announced three times (once before, twice after its
+children, by another spelling), below an implicit directory, and `b` announced twice in a row -/
+def exampleTOCRepeated : List Entry := [
+  { name := "a/x/", type := "dir", mode := 0o755, xattrs := [("user.a", "")] },
+  { name := "a/x/f", type := "reg", size := 3, offset := 50, chunkDigest := "d" },
+  { name := "./a/x", type := "dir", mode := 0o755, xattrs := [("user.a", "")] },
+  { name := "a/x/l", type := "hardlink", linkName := "a/x/f" },
+  { name := "a/x/", type := "dir", mode := 0o755, xattrs := [("user.a", "")] },
+  { name := "b", type := "dir", mode := 0o700 },
+  { name := "b/", type := "dir", mode := 0o700 } ]
+
+set_option maxRecDepth 100000 in
+example : SpecConformingR exampleTOCRepeated := by decide
+
+set_option maxRecDepth 100000 in
+example : ¬ SpecConforming exampleTOCRepeated := by decide
 
 example : cleanName "./a/../b//c/./d/.." = ["b", "c"] := by decide
 
